@@ -1,4 +1,5 @@
 """C13 — exported input reproduces the adjustment and is a fixed point."""
+import glob as _glob
 import importlib.util
 import shutil
 import tempfile
@@ -9,7 +10,7 @@ from lib import gen_net
 ID = "C13"
 PROPS_FILES = ["Gama/Props/C13.lean"]
 LEAN_TARGETS = ["Gama.Props.C13"]
-DRIVERS = []
+DRIVERS = ["drv_export"]
 RULE = ("net: generated 1D/2D/3D networks (every observation and cluster type, axes/angle conventions, sexagesimal input, "
         "gross errors that get observations removed) through 3 export/adjust rounds")
 LEVEL_TEXT = ("Lean 4 theorems (all networks of the modelled record types) that GKFparser's attribute handling inverts "
@@ -334,7 +335,7 @@ def gen_case(rng, k):
                 it["bs_dh"] = round(rng.uniform(1.0, 2.0), 3)
                 it["fs_dh"] = round(rng.uniform(1.0, 2.0), 3)
     N.decorate(rng, net, extern=rng.choice([0.0, 0.0, 0.4]), coords=(kind not in ("lev", "levcov") and rng.random() < 0.3),
-               vectors=False, obscov=(0.7 if kind == "2dcov" else 0.0), hdcov=(1.0 if kind == "levcov" else 0.0),
+               vectors=(kind in ("3d", "3dh") and rng.random() < 0.5), obscov=(0.7 if kind == "2dcov" else 0.0), hdcov=(1.0 if kind == "levcov" else 0.0),
                extern_pool=N.EXTERN_SAFE)
     gross = False
     if rng.random() < 0.2 and kind in ("2d", "2dang"):       # a gross error -> outlying absolute term -> observation removed
@@ -452,6 +453,180 @@ def check_case(ctx, gdir, wd, idx, c, corr):
     return True
 
 
+# ---------------------------------------------------------------- record-level correspondence: model vs GKFparser+export_xml
+
+KINDS = ["distance", "direction", "angle", "s-distance", "z-angle", "azimuth"]
+
+
+def hexs(t):
+    return t.encode("utf-8").hex() if t else "-"
+
+
+def gen_record_case(rng):
+    """one <obs> cluster with every observation kind and optional attribute zero / non-zero / absent, one
+    <height-differences> cluster; all points fixed so that the document is complete without adjustment"""
+    ids = ["S", "A", "B", "C c", "Dé"]
+    station = rng.choice(ids[:2])
+    els = []
+    for _ in range(rng.randint(1, 7)):
+        k = rng.choice(KINDS)
+        a = []
+        frm = station if (k == "direction" or rng.random() < 0.5) else rng.choice([i for i in ids if i != station])
+        if k != "direction" and (frm != station or rng.random() < 0.3):
+            a.append(("from", frm))
+        others = [i for i in ids if i != frm]
+        if k == "angle":
+            bs, fs = rng.sample(others, 2)
+            a += [("bs", bs), ("fs", fs)]
+        else:
+            a.append(("to", rng.choice(others)))
+        a.append(("val", f"{rng.uniform(1, 390):.6f}"))
+        a.append(("stdev", rng.choice(["10", "5", "2.5", "0.75"])))
+        for nm in (("from_dh", "bs_dh", "fs_dh") if k == "angle" else ("from_dh", "to_dh")):
+            r = rng.random()
+            if r < 0.35:
+                a.append((nm, rng.choice(["1.5", "1.625", "0.25", "2"])))
+            elif r < 0.5:
+                a.append((nm, rng.choice(["0", "0.0"])))
+        if rng.random() < 0.3:
+            a.append(("extern", rng.choice(["e1", "ext 2", "a&b", "x<y", "q\"t"])))
+        if rng.random() < 0.5:
+            rng.shuffle(a)
+        els.append((k, a))
+    dhs = []
+    for _ in range(rng.randint(0, 3)):
+        f, t = rng.sample(ids, 2)
+        a = [("from", f), ("to", t), ("val", f"{rng.uniform(-5, 5):.5f}")]
+        if rng.random() < 0.5:
+            a.append(("dist", rng.choice(["0.5", "1.25", "2"])))
+        else:
+            a.append(("stdev", rng.choice(["1", "0.5", "2.5"])))
+        if rng.random() < 0.3:
+            a.append(("extern", "lev 1"))
+        dhs.append(("dh", a))
+    return station, els, dhs
+
+
+def record_doc(station, els, dhs):
+    esc = gen_net.xml_escape_attr
+    ids = ["S", "A", "B", "C c", "Dé"]
+    out = ['<?xml version="1.0" ?>', '<gama-local xmlns="http://www.gnu.org/software/gama/gama-local">', "<network>",
+           '<parameters sigma-apr="10" conf-pr="0.95" tol-abs="1000" sigma-act="apriori" />', "<points-observations>"]
+    for k, i in enumerate(ids):
+        out.append(f'<point id="{esc(i)}" x="{100 + 37 * k}" y="{200 + 91 * k * k}" z="{10 + k}" fix="xyz" />')
+    out.append(f'<obs from="{esc(station)}">')
+    for k, a in els:
+        out.append(f"<{k} " + " ".join(f'{n}="{esc(v)}"' for n, v in a) + " />")
+    out.append("</obs>")
+    if dhs:
+        out.append("<height-differences>")
+        for k, a in dhs:
+            out.append(f"<{k} " + " ".join(f'{n}="{esc(v)}"' for n, v in a) + " />")
+        out.append("</height-differences>")
+    out += ["</points-observations>", "</network>", "</gama-local>", ""]
+    return "\n".join(out)
+
+
+NUMERIC = {"val", "stdev", "from_dh", "to_dh", "bs_dh", "fs_dh", "dist"}
+
+
+def elems_of_export(text, cluster):
+    g = read_gkf(text)
+    cl = [c for c in g["clusters"] if c["kind"] == cluster]
+    if not cl:
+        return None, []
+    return cl[0]["attrs"].get("from"), [(t, list(a.items())) for t, a in cl[0]["items"]]
+
+
+def parse_model_lines(lines):
+    station, els = None, []
+    for l in lines:
+        t = l.split()
+        if t and t[0] == "station":
+            station = bytes.fromhex(t[1]).decode("utf-8") if t[1] != "-" else ""
+        elif t and t[0] == "el":
+            els.append((t[1], [(kv.split("=")[0], (bytes.fromhex(kv.split("=")[1]).decode("utf-8") if kv.split("=")[1] != "-" else ""))
+                               for kv in t[2:]]))
+        elif t and t[0] == "throw":
+            els.append(("throw", [(t[1], "")]))
+    return station, els
+
+
+def elems_equal(impl, model, dist_given=None):
+    if len(impl) != len(model):
+        return f"{len(impl)} vs {len(model)} elements"
+    for (ta, aa), (tb, ab) in zip(impl, model):
+        if ta != tb:
+            return f"element {ta} vs {tb}"
+        if [n for n, _ in aa] != [n for n, _ in ab]:
+            return f"<{ta}> attributes {[n for n, _ in aa]} vs {[n for n, _ in ab]}"
+        for (n, va), (_, vb) in zip(aa, ab):
+            if n in NUMERIC:
+                if vb.startswith("SD(") or vb == "IMPLICIT":
+                    continue
+                fa, fb = float(va), float(vb)
+                if abs(fa - fb) > 1e-12 * max(abs(fa), abs(fb)) + 1e-300:
+                    return f"<{ta}> {n} {va} vs {vb}"
+            elif N.pid_norm(va) != N.pid_norm(vb):
+                return f"<{ta}> {n} {va!r} vs {vb!r}"
+    return None
+
+
+def record_stream(ctx, corr, gdir):
+    objs = sorted(_glob.glob(str(gdir / "CMakeFiles" / "libgama.dir" / "**" / "*.o"), recursive=True))
+    if not objs:
+        raise BuildError("libgama objects", f"no object files under {gdir}")
+    exe = ctx.build_cpp("c13_export", [ctx.verif / "harness" / "c13_export.cpp"], libs=objs + ["-lexpat"])
+    cases, meta = [], []
+    for _ in range(ctx.size(300, 6000)):
+        station, els, dhs = gen_record_case(ctx.rng)
+        doc = record_doc(station, els, dhs)
+        line = f"obs {hexs(doc)} {hexs(station)} " + " ; ".join(
+            k + "".join(f" {n}={hexs(v)}" for n, v in a) for k, a in els)
+        ops = [line]
+        if dhs:
+            ops.append(f"dh {hexs(doc)} " + " ; ".join(k + "".join(f" {n}={hexs(v)}" for n, v in a) for k, a in dhs))
+        cases.append(ops)
+        meta.append((station, els, dhs, doc))
+    impl, crashes = run_cases(exe, cases)
+    model, _ = run_cases(ctx.driver("drv_export"), cases)
+    for i, (station, els, dhs, doc) in enumerate(meta):
+        optional = sum(1 for _, a in els for n, v in a if n.endswith("_dh") or n == "extern")
+        corr.case(key=("rec", cases[i][0][-200:]) if optional else None,
+                  sample={"record_doc": doc[-600:]} if i < 1 else None)
+        corr.count("record_cases")
+        corr.count("record_elements", len(els) + len(dhs))
+        payload = {"stream": "record", "gkf": doc}
+        if i in crashes:
+            corr.fail("GKFparser / export_xml crashed on a generated record document", payload, "LocalNetwork::export_xml", crashes[i][1])
+            continue
+        if not impl[i] or not impl[i][0].startswith("ok "):
+            corr.fail("a generated record document is refused", dict(payload, out=impl[i][:1]), "GKFparser", " ".join(impl[i][:1])[:300])
+            continue
+        exported = bytes.fromhex(impl[i][0].split()[1]).decode("utf-8", "replace")
+        try:
+            ist, iels = elems_of_export(exported, "obs")
+            _, idh = elems_of_export(exported, "height-differences")
+        except ET.ParseError as e:
+            corr.fail("the exported record document is not well-formed", dict(payload, exported=exported[:2000]), "LocalNetwork::export_xml", str(e))
+            continue
+        nmodel = len(els) + 1
+        mst, mels = parse_model_lines(model[i][:nmodel])
+        why = elems_equal(iels, mels)
+        if why is None and N.pid_norm(ist or "") != N.pid_norm(mst or ""):
+            why = f"cluster station {ist!r} vs {mst!r}"
+        if why is None and dhs:
+            _, mdh = parse_model_lines(model[i][nmodel:])
+            why = elems_equal(idh, mdh)
+        if why:
+            corr.disagree("record", [doc[-1500:]], [str(iels)[:1200], str(idh)[:400]], model[i][:12], why)
+        # oracle on the implementation alone: exported attributes, read as a survey, equal the input's
+        d = same_survey(read_gkf(doc), read_gkf(exported), "record input vs export")
+        if d:
+            corr.fail("export_xml of a parsed document does not describe the same survey", dict(payload, diffs=d[:5]),
+                      "LocalNetwork::export_xml / GKFparser", "; ".join(d[:5]))
+
+
 def build(ctx):
     return ctx.build_gama(sanitize=ctx.thorough)
 
@@ -460,6 +635,7 @@ def correspond(ctx, corr):
     gdir = build(ctx)
     wd = Path(tempfile.mkdtemp(prefix="c13-"))
     try:
+        record_stream(ctx, corr, gdir)
         cases = []
         corpus = ctx.verif / "corpus" / "C13"
         for f in sorted(corpus.glob("net-*.gkf")):
@@ -498,6 +674,10 @@ def classify(ctx, f):
         return "F11b"
     if "extern of" in d:
         return "F21"
+    if re.search(r"cov-mat of <(coordinates|vectors)> differs", d) and \
+            re.search(r'axes-xy="(en|nw|se|ws)"( angles="left|>| epoch)|axes-xy="(ne|sw|es|wn)" angles="right|<network angles="right',
+                      str(f.replay.get("gkf", ""))):
+        return "F25"
     if re.search(r"value of \('coord'", d) or ("does not reproduce" in f.what and "<coordinates" in str(f.replay.get("gkf", ""))
                                                 and re.search(r'axes-xy="(en|nw|se|ws)" angles="left|axes-xy="(ne|sw|es|wn)" angles="right', str(f.replay.get("gkf", "")))):
         return "F22"
